@@ -572,7 +572,7 @@ func main() {
 			"replaced by each of a 12-word alphabet (0,1,2,3,-1,2^31-1,2^31,1 MiB,1 MiB+1,16,0x100,own id), trailing bytes; a reference parser decides ok/short/malformed: short or malformed must give an error " +
 			"(class negative-count-accepted is kept separate), ok must give the reference value and consumption. " +
 			"Gzip (worker processes, 3 GiB address-space limit): payload sizes {0,1,4,1000,65536,10 MiB-1,10 MiB,10 MiB+1,16 MiB,64 MiB zeros} x patterns {zero,count,incompressible stream} x producer {GZIP.Encode, compress/gzip}; " +
-			"bombs of 256 MiB (thorough: 1 GiB, 4 GiB) of zeros; multi-member streams; corrupted streams (magic, crc, isize, truncation at every byte for a small stream, trailing bytes). " +
+			"bombs of 256 MiB (thorough: also 1 GiB) of zeros; multi-member streams; corrupted streams (magic, crc, isize, truncation at every byte for a small stream, trailing bytes). " +
 			"Oracle: < 10 MiB decodes to the payload, > 10 MiB fails, = 10 MiB either; GZIP.Data never exceeds 10 MiB; decoding a bomb >= 256 MiB allocates < 160 MiB in total. " +
 			"Histories of <=3 decodes over {valid-a, valid-b, bomb, bad header, truncated, bad crc} starting from an empty reader pool: a valid input decodes to its payload whatever preceded it. " +
 			"distinct = distinct witnesses.")
@@ -676,7 +676,7 @@ func main() {
 		}
 		bombs := []int{256 * mib}
 		if c.Thorough() {
-			bombs = append(bombs, 1024*mib, 4095*mib)
+			bombs = append(bombs, 1024*mib)
 		}
 		for _, s := range bombs {
 			gj = append(gj, wGzip{Producer: "std", Size: s, Pattern: "zero"})
